@@ -611,7 +611,8 @@ def rule_N2(src, lo, hi, enabled):
                     p += 1
                 p += 1
                 # only leading let/if statements are considered; stop at first non-let
-                if p < body_close and toks[p].text not in ("let", "if"):
+                if p < body_close and toks[p].text not in ("let", "if") \
+                        and not (toks[p].text in ("trace", "debug", "info", "warn", "error") and p + 1 < body_close and toks[p + 1].text == "!"):
                     break
     return out
 
